@@ -356,6 +356,18 @@ CHECKS = {
         design_ref="DESIGN.md 5 C05",
         note=NOTE_COMMON + " The numeric kernel is abTEM's; TLC contributes the enumeration, coverage and the bound verdicts.",
     ),
+    "C03": dict(
+        text=("TLC enumerates Decomp.tla: object (Probe, PlaneWave, CTF, Aperture, TemporalEnvelope, SpatialEnvelope) x every subset of "
+              "size 1-2 of its distribution-capable parameters (defocus, C30, C12, phi12, semiangle cutoff soft/hard, tilt "
+              "components, focal and angular spread, probe positions) x lengths 1-3 x ensemble_mean x lazy/eager (1224 cases); all "
+              "(thorough) or a seeded sample of 90 (quick) are run as an ensemble and as scalar runs for every member; "
+              "DecompTrace.tla decides: both raise or neither, ensemble shape, each distribution's axis metadata lists its values "
+              "in order (defocus as -C10), member (i1, i2) equals the scalar run at (v1[i1], v2[i2]) with the axes located through "
+              "their metadata, and an ensemble_mean axis (after detection) equals the mean of the members."),
+        technique="TLA+ case enumeration and acceptance predicate (TLC) over ensemble-vs-scalar differential runs; TLC trace validation",
+        design_ref="DESIGN.md 5 C03",
+        note=NOTE_COMMON + " Member equality uses unit-weight distributions; the weighted-mean clause is checked for unit weights only (the statement leaves the weighting convention open). Tolerance 5e-5.",
+    ),
 }
 
 NOT_APPLICABLE = {
